@@ -337,8 +337,14 @@ package main
 //@   ensures no-stamp-otherwise: !(rawMessage.Message.request != nil && rawMessage.ReceivedSupport) ==> stamps == old(stamps) && stampAddr == old(stampAddr) && stampPort == old(stampPort)
 //@ func (*Proxy).HandleMessage
 //@   srequires rf: nonNil(msg.ReceivedFrom)
-//@   props C02 C03 C06
+//@   props C02 C03 C06 C15 C04
 //@   ensures r-pop: msg.request == nil ==> popvias == old(popvias) ++ seq1(msg)
+//@   ensures r-never-unpins: msg.request == nil ==> unpins == old(unpins)
+//@   ensures r-pins-at-most-one: msg.request == nil ==> len(pins) <= len(old(pins)) + 1 && len(pins) >= len(old(pins))
+//@   ensures r-subscribe-response-pins: let a == hopHostE[len(old(hopHostE))] + ":" + itoa(hopPortE[len(old(hopPortE))]) :: msg.request == nil && hopOk[len(old(hopOk))] && old(has(p.backends, a))
+//@        && firstIdx(msg.headers, "CSeq") >= 0 && isType(msg.headers[firstIdx(msg.headers, "CSeq")].value, "*CSeq") && asRef(msg.headers[firstIdx(msg.headers, "CSeq")].value, "*CSeq").Method == "SUBSCRIBE"
+//@        && len(gdOk) > len(old(gdOk)) && gdOk[len(old(gdOk))] ==>
+//@        pins == old(pins) ++ seq1(gdId[len(old(gdId))]) && pinBackends == old(pinBackends) ++ seq1(old(p.backends[a].backend))
 //@   ensures r-at-most-one: msg.request == nil ==> len(smMsg) <= len(old(smMsg)) + 1 && len(smMsg) >= len(old(smMsg)) && stb == old(stb)
 //@   ensures r-dest-msg: msg.request == nil && len(smMsg) == len(old(smMsg)) + 1 ==> smMsg[len(old(smMsg))] == msg
 //@   ensures r-dest-decoded: msg.request == nil && len(smMsg) == len(old(smMsg)) + 1 ==> firstIdx(msg.headers, "Via") >= 0 && isType(msg.headers[firstIdx(msg.headers, "Via")].value, "*Via") && len(asRef(msg.headers[firstIdx(msg.headers, "Via")].value, "*Via").params) >= 1
